@@ -143,8 +143,10 @@ Proof. exact solve_wf. Qed.
 Print Assumptions C13_sld_answers_wellformed.
 
 (* NOT proved: termination criteria (when some fuel suffices), completeness with
-   negation / findall / \= (not in the definite fragment), and
-   C13_tabled_is_lfp (the tabled engine is tied to this reference by correspondence only). *)
+   negation / findall / \= (not in the definite fragment).
+   C13_tabled_is_lfp is proved at the end of this file for the ABSTRACT tabling machine of
+   C03 on ground definite programs; the real engine is tied to this reference by
+   correspondence only. *)
 
 (* ---- non-vacuity ---- *)
 Definition a_ := TApp (SAtom 10) [].
@@ -185,4 +187,236 @@ Example C13_ex_app_nonground :
 Proof.
   eexists. split; [vm_compute; reflexivity|].
   exists (fun _ => mklist [b_]). vm_compute. reflexivity.
+Qed.
+
+(* ======================================================================================
+   C13_tabled_is_lfp — the tabled evaluation computes the least Herbrand model restricted
+   to the query (ProofsTabledModel.v, ProofsTabledLfp.v, ProofsTabledSLD.v).
+
+   Subject: the abstract tabling / worklist machine of C03 (PL.C03.ModelTabling) over a
+   GROUND DEFINITE program (numbered atoms, every body literal positive: [gdefinite]).
+   The machine records goals and clause-instance edges, no truth values; the answer it
+   gives for an atom is, as in C03, the value of the atom in the discovered graph:
+     tabled_answer P Q s a = gamma (goals st) (|goals st|+1) (edges st) {} {} a,
+     st = run P s (init Q)          (C03's Kleene iteration, no probabilistic fact on).
+   [lm E] is the inductively defined least Herbrand model of the clause list E.
+   NOT covered: the real engine (cycle_root, buffers, answer substitutions, first-order
+   resolution) — that it refines the machine is tied by correspondence only, as in C03;
+   non-ground programs; negation.
+   ====================================================================================== *)
+From PL.C03 Require ProofsTabling.
+From PL.C03 Require Import ModelTabling ProofsTermination.
+From PL.C13 Require Import ProofsTabledModel ProofsTabledLfp ProofsTabledSLD.
+
+(* [lm E] is a model of E and is contained in every model of E *)
+Theorem C13_lm_is_least_model : forall (E : list ModelTabling.clause),
+  (forall c, In c E -> (forall b, In (Pos b) (body c) -> lm E b) -> lm E (head c)) /\
+  (forall M : atom -> Prop,
+     (forall c, In c E -> (forall b, In (Pos b) (body c) -> M b) -> M (head c)) ->
+     forall a, lm E a -> M a).
+Proof. exact (fun E => conj (lm_closed E) (lm_least E)). Qed.
+Print Assumptions C13_lm_is_least_model.
+
+(* |U|+1 rounds of the immediate-consequence operator over a universe U that contains
+   the clause heads reach the least model (cyclic programs included) *)
+Theorem C13_kleene_is_least_model : forall (U : list atom) (E : list ModelTabling.clause),
+  gdefinite E = true -> (forall c, In c E -> In (head c) U) ->
+  forall a, lfp_true U E a = true <-> lm E a.
+Proof. exact (fun U E D HU => lfp_true_is_lm U E (gdefinite_body E D) HU). Qed.
+Print Assumptions C13_kleene_is_least_model.
+
+(* the design's statement, for every terminating schedule ... *)
+Theorem C13_tabled_is_lfp : forall (P : ModelTabling.program) (Q : list atom) (s : schedule),
+  gdefinite P = true -> terminated (run P s (init Q)) ->
+  forall a, tabled_answer P Q s a = true <-> (reach P Q a /\ lm P a).
+Proof. exact tabled_is_lfp. Qed.
+Print Assumptions C13_tabled_is_lfp.
+
+(* ... and with C03's termination theorem for EVERY schedule of length >= bound P Q
+   (= |Q| + 2|P| + number of body literals): the atoms answered true are exactly the
+   atoms reachable from the queries that are in the least model of the whole program *)
+Theorem C13_tabled_is_lfp_total : forall (P : ModelTabling.program) (Q : list atom) (s : schedule),
+  gdefinite P = true -> bound P Q <= length s ->
+  forall a, tabled_answer P Q s a = true <-> (reach P Q a /\ lm P a).
+Proof. exact tabled_is_lfp_total. Qed.
+Print Assumptions C13_tabled_is_lfp_total.
+
+Theorem C13_tabled_query_is_lm : forall (P : ModelTabling.program) (Q : list atom) (s : schedule),
+  gdefinite P = true -> bound P Q <= length s ->
+  forall a, In a Q -> (tabled_answer P Q s a = true <-> lm P a).
+Proof. exact tabled_query_is_lm. Qed.
+Print Assumptions C13_tabled_query_is_lm.
+
+Theorem C13_tabled_answer_schedule_free : forall (P : ModelTabling.program) (Q : list atom) (s1 s2 : schedule),
+  gdefinite P = true -> bound P Q <= length s1 -> bound P Q <= length s2 ->
+  forall a, tabled_answer P Q s1 a = tabled_answer P Q s2 a.
+Proof. exact tabled_answer_schedule_free. Qed.
+Print Assumptions C13_tabled_answer_schedule_free.
+
+(* the answer is C03's well-founded value of the discovered graph (two-valued here) *)
+Theorem C13_tabled_answer_is_wf_value : forall (P : ModelTabling.program) (Q : list atom) (s : schedule) (m : nat) (a : atom),
+  gdefinite P = true ->
+  wf_value (goals (run P s (init Q))) (S (length (goals (run P s (init Q))))) (S m)
+           (edges (run P s (init Q))) (fun _ => false) a
+  = Some (tabled_answer P Q s a).
+Proof.
+  exact (fun P Q s m a D =>
+    tabled_true_is_wf_value P Q _ m a D (ProofsTabling.inv_run P Q s _ (ProofsTabling.inv_init P Q))).
+Qed.
+Print Assumptions C13_tabled_answer_is_wf_value.
+
+(* ---- bridge: a ground definite program over numbered atoms read as a first-order program
+   of ModelSLD.v.  nm a = the ground first-order atom number a (any injective naming by
+   ground terms);  h :- b1,...,bk  becomes (nm h, GAnd (GCall (nm b1)) (... GTrue)). *)
+Theorem C13_bridge_definite : forall (nm : atom -> term) (P : ModelTabling.program),
+  definite_program (embed nm P).
+Proof. exact embed_definite. Qed.
+Print Assumptions C13_bridge_definite.
+
+(* the two inductively defined least models coincide *)
+Theorem C13_bridge_least_models_agree : forall (nm : atom -> term),
+  (forall a, tvars (nm a) = []) -> (forall a b, nm a = nm b -> a = b) ->
+  forall (P : ModelTabling.program), gdefinite P = true ->
+  forall a, holds (embed nm P) (GCall (nm a)) <-> lm P a.
+Proof. exact embed_least_models_agree. Qed.
+Print Assumptions C13_bridge_least_models_agree.
+
+(* ---- agreement with the SLD interpreter.  sld_verdict n P' q = Some true (an answer),
+   Some false (finite failure), None (OutOfFuel/Floundered).  A finished run decides
+   membership in the least model (C13_sld_answers_sound + C13_sld_answers_complete) ... *)
+Theorem C13_sld_verdict_is_lm : forall (nm : atom -> term),
+  (forall a, tvars (nm a) = []) -> (forall a b, nm a = nm b -> a = b) ->
+  forall (P : ModelTabling.program) (n : nat) (a : atom) (b : bool), gdefinite P = true ->
+  sld_verdict n (embed nm P) (nm a) = Some b -> (b = true <-> lm P a).
+Proof. exact sld_verdict_is_lm. Qed.
+Print Assumptions C13_sld_verdict_is_lm.
+
+(* ... hence whenever SLD finishes on a relevant ground atom its success/failure is the
+   answer of the tabled machine, under every schedule of length >= bound ... *)
+Theorem C13_sld_agrees_with_tabled : forall (nm : atom -> term),
+  (forall a, tvars (nm a) = []) -> (forall a b, nm a = nm b -> a = b) ->
+  forall (P : ModelTabling.program) (Q : list atom) (s : schedule) (n : nat) (a : atom) (b : bool),
+  gdefinite P = true -> bound P Q <= length s -> reach P Q a ->
+  sld_verdict n (embed nm P) (nm a) = Some b -> tabled_answer P Q s a = b.
+Proof. exact sld_agrees_with_tabled. Qed.
+Print Assumptions C13_sld_agrees_with_tabled.
+
+(* ... while the machine always answers: for every fuel, SLD either does not finish or
+   returns the machine's answer (the examples below have queries where it never does) *)
+Theorem C13_tabled_decides_sld : forall (nm : atom -> term),
+  (forall a, tvars (nm a) = []) -> (forall a b, nm a = nm b -> a = b) ->
+  forall (P : ModelTabling.program) (Q : list atom) (s : schedule) (a : atom),
+  gdefinite P = true -> bound P Q <= length s -> reach P Q a ->
+  forall n, sld_verdict n (embed nm P) (nm a) = None \/
+            sld_verdict n (embed nm P) (nm a) = Some (tabled_answer P Q s a).
+Proof. exact tabled_decides_sld. Qed.
+Print Assumptions C13_tabled_decides_sld.
+
+(* ---- non-vacuity: transitive closure over the nodes {0,1,2}, all ground instances
+   (38 clauses with the chain 0->1->2, 39 with the cycle 0->1->2->0);
+   tc(i,j) is atom 3i+j, ed(i,j) is atom 9+3i+j, nm_tc names them tc(i,j) / ed(i,j). *)
+Example C13_ex_nm_tc : (forall a, tvars (nm_tc a) = []) /\ (forall a b, nm_tc a = nm_tc b -> a = b).
+Proof. exact (conj nm_tc_ground nm_tc_inj). Qed.
+
+Example C13_ex_tc_programs :
+  gdefinite tc_left_chain = true /\ gdefinite tc_right_chain = true /\
+  gdefinite tc_left_cycle = true /\ gdefinite tc_right_cycle = true /\
+  length tc_left_chain = 38 /\ bound tc_left_chain [tc 0 2; tc 2 0] = 141 /\
+  bound tc_left_cycle [tc 0 2; tc 2 0] = 143 /\
+  nm_tc (tc 0 2) = TApp (SAtom 40) [i_ 0%Z; i_ 2%Z] /\ nm_tc (ed 1 2) = TApp (SAtom 41) [i_ 1%Z; i_ 2%Z].
+Proof. vm_compute. repeat split; reflexivity. Qed.
+
+(* LEFT-RECURSIVE  tc(X,Y) :- tc(X,Z), ed(Z,Y).  tc(X,Y) :- ed(X,Y).  on the chain:
+   the SLD interpreter runs out of fuel on tc(0,2) (it loops through tc(0,0) :- tc(0,0), ...),
+   the tabled machine answers under a LIFO schedule and under a scrambled one, in
+   different discovery orders: tc(0,2), tc(0,1), ed(0,1) true; tc(2,0), ed(1,0) false *)
+Example C13_ex_left_recursion :
+  sld_verdict 30 (embed nm_tc tc_left_chain) (nm_tc (tc 0 2)) = None /\
+  map (tabled_answer tc_left_chain [tc 0 2; tc 2 0] (lifo 150)) [tc 0 2; tc 2 0; tc 0 1; ed 0 1; ed 1 0]
+    = [true; false; true; true; false] /\
+  map (tabled_answer tc_left_chain [tc 0 2; tc 2 0] (scrambled 150 1)) [tc 0 2; tc 2 0; tc 0 1; ed 0 1; ed 1 0]
+    = [true; false; true; true; false] /\
+  goals (run tc_left_chain (lifo 150) (init [tc 0 2; tc 2 0]))
+    <> goals (run tc_left_chain (scrambled 150 1) (init [tc 0 2; tc 2 0])).
+Proof. vm_compute. repeat split; try reflexivity. discriminate. Qed.
+
+(* RIGHT-RECURSIVE  tc(X,Y) :- ed(X,Z), tc(Z,Y).  tc(X,Y) :- ed(X,Y).  on the chain: SLD finishes
+   (fuel 10; 8 is not enough) with success on tc(0,2) and finite failure on tc(2,0) — and
+   the machine says the same; on the cycle SLD runs out of fuel, the machine answers true *)
+Example C13_ex_right_recursion :
+  sld_verdict 10 (embed nm_tc tc_right_chain) (nm_tc (tc 0 2)) = Some true /\
+  sld_verdict 10 (embed nm_tc tc_right_chain) (nm_tc (tc 2 0)) = Some false /\
+  sld_verdict 8 (embed nm_tc tc_right_chain) (nm_tc (tc 0 2)) = None /\
+  map (tabled_answer tc_right_chain [tc 0 2; tc 2 0] (lifo 150)) [tc 0 2; tc 2 0] = [true; false] /\
+  sld_verdict 30 (embed nm_tc tc_right_cycle) (nm_tc (tc 0 2)) = None /\
+  map (tabled_answer tc_right_cycle [tc 0 2; tc 2 0] (lifo 150)) [tc 0 2; tc 2 0; tc 0 0] = [true; true; true] /\
+  map (tabled_answer tc_left_cycle [tc 0 2; tc 2 0] (scrambled 150 2)) [tc 0 2; tc 2 0; tc 0 0] = [true; true; true].
+Proof. vm_compute. repeat split; reflexivity. Qed.
+
+(* the agreement theorem applied: from the ONE finished SLD run above, the answer of the
+   machine under EVERY schedule of length >= 141 — and membership in the least model *)
+Example C13_ex_agreement_instance : forall s : schedule, 141 <= length s ->
+  tabled_answer tc_right_chain [tc 0 2; tc 2 0] s (tc 0 2) = true /\
+  tabled_answer tc_right_chain [tc 0 2; tc 2 0] s (tc 2 0) = false /\
+  lm tc_right_chain (tc 0 2) /\ ~ lm tc_right_chain (tc 2 0).
+Proof.
+  intros s L.
+  assert (D : gdefinite tc_right_chain = true) by (vm_compute; reflexivity).
+  assert (B : bound tc_right_chain [tc 0 2; tc 2 0] <= length s) by (vm_compute; exact L).
+  assert (V1 : sld_verdict 10 (embed nm_tc tc_right_chain) (nm_tc (tc 0 2)) = Some true) by (vm_compute; reflexivity).
+  assert (V2 : sld_verdict 10 (embed nm_tc tc_right_chain) (nm_tc (tc 2 0)) = Some false) by (vm_compute; reflexivity).
+  repeat split.
+  - apply (C13_sld_agrees_with_tabled nm_tc nm_tc_ground nm_tc_inj _ _ s 10 _ _ D B); [|exact V1].
+    apply reach_q. left. reflexivity.
+  - apply (C13_sld_agrees_with_tabled nm_tc nm_tc_ground nm_tc_inj _ _ s 10 _ _ D B); [|exact V2].
+    apply reach_q. right. left. reflexivity.
+  - apply (C13_sld_verdict_is_lm nm_tc nm_tc_ground nm_tc_inj _ 10 _ true D V1). reflexivity.
+  - intros H. apply (C13_sld_verdict_is_lm nm_tc nm_tc_ground nm_tc_inj _ 10 _ false D V2) in H. discriminate.
+Qed.
+
+(* ---- SLD does not finish on left recursion, WHATEVER the fuel: if the first clause for a is
+   a :- a, ...  then every run on the ground call a ends with OutOfFuel; the same for a goal
+   whose first clause starts with a call that never finishes *)
+Theorem C13_sld_left_recursion_never_finishes : forall (nm : atom -> term),
+  (forall a, tvars (nm a) = []) -> (forall a b, nm a = nm b -> a = b) ->
+  forall (P pre rest : ModelTabling.program) (a : atom) (ls : list lit),
+  P = pre ++ mkClause a (Pos a :: ls) :: rest -> (forall c, In c pre -> head c <> a) ->
+  forall n nv, solve n (embed nm P) (GCall (nm a)) nv = OutOfFuel.
+Proof. exact left_recursion_never_finishes. Qed.
+Print Assumptions C13_sld_left_recursion_never_finishes.
+
+Theorem C13_sld_calls_unfinished_never_finishes : forall (nm : atom -> term),
+  (forall a, tvars (nm a) = []) -> (forall a b, nm a = nm b -> a = b) ->
+  forall (P pre rest : ModelTabling.program) (a b : atom) (ls : list lit),
+  P = pre ++ mkClause a (Pos b :: ls) :: rest -> (forall c, In c pre -> head c <> a) ->
+  (forall n nv, solve n (embed nm P) (GCall (nm b)) nv = OutOfFuel) ->
+  forall n nv, solve n (embed nm P) (GCall (nm a)) nv = OutOfFuel.
+Proof. exact calls_unfinished_never_finishes. Qed.
+Print Assumptions C13_sld_calls_unfinished_never_finishes.
+
+(* the left-recursive transitive closure (chain and cycle): for EVERY fuel the SLD interpreter
+   gives no verdict on tc(0,2); for EVERY schedule of length >= bound the machine answers true *)
+Example C13_ex_left_recursion_all_fuels_all_schedules :
+  (forall n, sld_verdict n (embed nm_tc tc_left_chain) (nm_tc (tc 0 2)) = None) /\
+  (forall n, sld_verdict n (embed nm_tc tc_left_cycle) (nm_tc (tc 0 2)) = None) /\
+  (forall s : schedule, 141 <= length s ->
+     tabled_answer tc_left_chain [tc 0 2; tc 2 0] s (tc 0 2) = true /\
+     tabled_answer tc_left_chain [tc 0 2; tc 2 0] s (tc 2 0) = false) /\
+  (forall s : schedule, 143 <= length s ->
+     tabled_answer tc_left_cycle [tc 0 2; tc 2 0] s (tc 0 2) = true /\
+     tabled_answer tc_left_cycle [tc 0 2; tc 2 0] s (tc 2 0) = true).
+Proof.
+  split; [intros n; apply (tc_left_never_finishes n)|].
+  split; [intros n; apply (tc_left_never_finishes n)|].
+  split; intros s L.
+  - assert (D : gdefinite tc_left_chain = true) by (vm_compute; reflexivity).
+    assert (B : bound tc_left_chain [tc 0 2; tc 2 0] <= length s) by (vm_compute; exact L).
+    assert (B' : bound tc_left_chain [tc 0 2; tc 2 0] <= length (lifo 150)) by (vm_compute; repeat constructor).
+    rewrite !(C13_tabled_answer_schedule_free _ _ s (lifo 150) D B B').
+    vm_compute. split; reflexivity.
+  - assert (D : gdefinite tc_left_cycle = true) by (vm_compute; reflexivity).
+    assert (B : bound tc_left_cycle [tc 0 2; tc 2 0] <= length s) by (vm_compute; exact L).
+    assert (B' : bound tc_left_cycle [tc 0 2; tc 2 0] <= length (lifo 150)) by (vm_compute; repeat constructor).
+    rewrite !(C13_tabled_answer_schedule_free _ _ s (lifo 150) D B B').
+    vm_compute. split; reflexivity.
 Qed.
